@@ -296,6 +296,10 @@ class SessionManager:
             is_broadcast = payload.request
             ip_protocol = PROTOCOL_LOOKUP["UDP"]
         else:
+            if self.software_manager.arp is None:
+                # a node without an IP stack (a Switch: no ARP service, ports without IP configuration) cannot originate
+                # IP traffic: unresolved, like any other destination that cannot be reached
+                return False
             vals = self.resolve_outbound_transmission_details(
                 dst_ip_address=dst_ip_address,
                 src_port=src_port,
